@@ -971,6 +971,16 @@ def check_boundary(p, t_prev, final):
         o.v("accepted-item-discarded", f"{when}: the server counts {s['discarded']} request(s) rejected AFTER its "
                                        f"queue had accepted them", t_prev)
     if isinstance(p, PipeBatch):
+        if p.cfg["timeout"] > 0:
+            # documented contract: flushed when the batch is full or timeout_s after the first item of the
+            # batch arrived, then process_time in service -> an item offered at a is downstream by
+            # a + timeout + process_time; later than that it has waited (or sat unserved) with capacity free
+            bound = p.cfg["timeout"] + p.cfg["svc"]
+            late = [g for g in offered if g not in o.sunk and o.arr_times.get(g, 0) + bound <= t_prev]
+            if late:
+                o.v("stranded", f"{when}: tag(s) {late} offered at t={[o.arr_times[g] for g in late]} are still not "
+                                f"downstream although timeout {p.cfg['timeout']} + process time {p.cfg['svc']} "
+                                f"elapsed (buffered: {s['waiting']}); {tail}", t_prev)
         if final:
             if s["completed"] != n_sunk:
                 o.v("counters", f"{when}: items_processed={s['completed']} but {n_sunk} items arrived downstream",
